@@ -46,6 +46,8 @@ class C07(Prop):
     def check(self, case):
         code, v = case['code'], case['version']
         g = grammar(v)
+        from .c02 import abandon_strict_parse
+        abandon_strict_parse(g)
         try:
             m = g.parse(code)
         except RecursionError:
